@@ -55,6 +55,42 @@ func factsMisc() {
 		syncSkeleton(fn(f, "Queue", "Pop")))
 	emitList("alertQueuePushSkeleton", "pkg/alert/alert.go Queue.Push: channel operations, mutex calls, the conditions that guard them and returns, in source order",
 		syncSkeleton(fn(f, "Queue", "Push")))
+
+	// ---- C47: does apply() record an output file in r.lastCfgDirFiles[i] inside the loop over the
+	// entries of a config directory (so that a pass that fails later still tracks it), and how the
+	// decision to reload is written
+	f = parse("pkg/reloader/reloader.go")
+	ap := fn(f, "Reloader", "apply")
+	emitStr("reloaderTracksWrittenOutputs", "pkg/reloader/reloader.go apply: assignment r.lastCfgDirFiles[i][outFile] = … inside the loop over directory entries",
+		tracksWritten(ap))
+	emitStr("reloaderNoReloadCond", "pkg/reloader/reloader.go apply: the condition under which nothing is reloaded",
+		firstIfCond(body(ap), "forceReload"))
+}
+
+func tracksWritten(fd *ast.FuncDecl) string {
+	if fd == nil || fd.Body == nil {
+		return "unknown"
+	}
+	res := "no"
+	found := false
+	ast.Inspect(fd.Body, func(n ast.Node) bool {
+		rs, ok := n.(*ast.RangeStmt)
+		if !ok || text(rs.X) != "entries" {
+			return true
+		}
+		found = true
+		ast.Inspect(rs.Body, func(m ast.Node) bool {
+			if a, ok := m.(*ast.AssignStmt); ok && len(a.Lhs) == 1 && strings.HasPrefix(text(a.Lhs[0]), "r.lastCfgDirFiles[i][") {
+				res = "yes"
+			}
+			return true
+		})
+		return false
+	})
+	if !found {
+		return "unknown"
+	}
+	return res
 }
 
 // syncSkeleton lists, in source order: select statements (their communication clauses), sends and
